@@ -64,6 +64,12 @@ def r2(ctx: Ctx) -> None:
             if not ok and unknown_series(*[c_ for c_, _, _ in p.conds]):
                 ctx.unrec(f, f.node, "a price is passed through unchanged only when it deviates from p0 by less than p0*r", "the reference price is read from something that stands in for the recorded series (not the series itself)", p.describe()[:160])
                 continue
+            from ..kit import memo_on_self
+
+            memo = None if ok else memo_on_self(("target_markets",), *[c_ for c_, _ in band])
+            if memo is not None:
+                ctx.unrec(f, f.node, "a price is passed through unchanged only when it deviates from p0 by less than p0*r", f"the reference price is read from self.{memo}, a table kept on the rule: whether an entry still equals the market's price at time 0 is not decided", p.describe()[:160])
+                continue
             ctx.check(ok, f, f.node, "a price is passed through unchanged only when it deviates from p0 by less than p0*r", "not (|p0*r| <= |price - p0|) -> return order.price", p.describe()[:200])
             continue
         # clamp: min(max(price, lo), hi) or max(min(price, hi), lo)
